@@ -342,6 +342,11 @@ func VerifyPSS(pub *PublicKey, hash crypto.Hash, digest []byte, sig []byte, opts
 	// 	...
 	// 	return boring.VerifyRSAPSS(bkey, hash, digest, sig, opts.saltLength())
 	// }
+	// ZCrypto - sanity check the key first: E is a *big.Int here, and a nil or
+	// negative exponent (or a nil modulus) must not reach Size/encrypt.
+	if err := checkPub(pub); err != nil {
+		return ErrVerification
+	}
 	if len(sig) != pub.Size() {
 		return ErrVerification
 	}
